@@ -29,6 +29,9 @@ CFGX = {
     None: {},
     "unconv": {"permit_unconventional_http_version": True, "permit_unconventional_http_method": True},
     "casefold": {"casefold_http_method": True, "permit_unconventional_http_method": True},      # documented: method upper-cased
+    # obsolete line folding admitted: a field spread over several lines is one field whose value is the pieces joined by blanks -
+    # and a continuation line belongs to the field line in front of it, kept or dropped
+    "folding": {"permit_obsolete_folding": True},
 }
 
 
@@ -185,6 +188,15 @@ def make_case(rng, conn=None):
             case["method"] = rng.choice(["get", "Post", "x#y", "pUT", "GET", "m-search"])
     elif r < 0.18:
         case["version"] = rng.choice(["1.2", "1.9", "1.5"])          # accepted without any switch
+    elif r < 0.27:
+        case["cfgx"] = "folding"
+        folded = []
+        for n, v in hdrs:
+            if bytes(n).lower() != b"expect" and rng.random() < 0.45:
+                for _ in range(rng.choice([1, 1, 2])):
+                    v = v + b"\r\n" + rng.choice([b" ", b"\t", b"  \t", b" "]) + rng.choice([b"more", b"x=1", b"caf\xe9", b"a, b", b"k9Zq tail "])
+            folded.append([n.hex(), v.hex()])
+        case["headers"] = folded
     return case
 
 
@@ -225,7 +237,9 @@ def is_trusted(case):
 def judge(case, environ):
     target = bytes.fromhex(case["target"])
     _, wire = render(case)
-    wire = [(n, v.strip(b" \t")) for n, v in wire]
+    # (a folded value: the pieces without the blanks around them, joined by one blank)
+    wire = [(n, b" ".join(x.strip(b" \t") for x in v.split(b"\r\n")).strip(b" \t")) for n, v in wire]
+    has_folds = any(b"\r\n" in bytes.fromhex(v) for _, v in case["headers"])
     script = case["script_env"]
     hdr_script = case["script_hdr"]
     lines = [(n, v) for n, v in wire if n != b"SCRIPT_NAME"]
@@ -253,6 +267,8 @@ def judge(case, environ):
             continue
         want = exp.get(key)
         got = environ.get(key)
+        if has_folds and key == "CONTENT_TYPE" and isinstance(got, str) and isinstance(want, str):
+            got, want = FOLD_BLANKS.sub(" ", got).strip(" \t"), FOLD_BLANKS.sub(" ", want).strip(" \t")
         if want is None:
             if key in ("CONTENT_LENGTH", "CONTENT_TYPE") and got not in (None, ""):
                 out.append((key, got, None))
@@ -264,12 +280,19 @@ def judge(case, environ):
         if k == "HTTP_SCRIPT_NAME":
             continue
         g = got_http.pop(k, None)
+        if g is not None and has_folds:
+            # how many blanks stand for a fold is not pinned down (RFC 9112 5.2: one or more): compared with blank runs collapsed
+            g = FOLD_BLANKS.sub(" ", g).strip(" \t")
+            vals = [FOLD_BLANKS.sub(" ", x).strip(" \t") for x in vals]
         if g is None or not ref_cgi.http_value_matches(g, vals):
             out.append((k, g, ",".join(vals)))
     got_http.pop("HTTP_SCRIPT_NAME", None)
     for k, g in got_http.items():
         out.append((k, g, None))
     return out, exp
+
+
+FOLD_BLANKS = __import__("re").compile(r"[ \t]+")
 
 
 def features(case):
@@ -346,6 +369,10 @@ def count_reach(run, case, exp):
         run.count("path_escape_with_mixed_case_hex_letters")
     if case.get("cfgx"):
         run.count("switch/" + case["cfgx"])
+        if case["cfgx"] == "folding" and hm == "drop":
+            hs = [(bytes.fromhex(n), bytes.fromhex(v)) for n, v in case["headers"]]
+            if any(b"_" not in hs[i][0] and b"_" in hs[i + 1][0] and b"\r\n" in hs[i + 1][1] for i in range(len(hs) - 1)):
+                run.count("folded_field_dropped_after_kept_field")
     if not case["version"].startswith("1."):
         run.count("version_outside_1x_accepted")
     elif case["version"] not in ("1.0", "1.1"):
@@ -514,7 +541,7 @@ def main(tier, seed):
     run.require("accepted", "form/origin", "form/absolute", "form/asterisk", "with_script_name", "repeated_header_joined",
                 "script_name_header_from_untrusted_peer", "script_name_not_a_prefix_cases", "header_map_dangerous_cases",
                 "two_spellings_one_variable", "client_gone_cases", "live_script_name_checks",
-                "path_escape_with_mixed_case_hex_letters", "switch/unconv", "switch/casefold", "version_outside_1x_accepted",
+                "path_escape_with_mixed_case_hex_letters", "switch/unconv", "switch/casefold", "switch/folding", "folded_field_dropped_after_kept_field", "version_outside_1x_accepted",
                 "version_1x_other_than_1.0_1.1_accepted", "unconventional_method_accepted", "forwarder_path_info_field_mapped",
                 "forwarder_fields_in_reverse_order", "keepalive_connections", "keepalive_later_request_accepted",
                 "keepalive_later_request_with_forwarder_script_name")
